@@ -469,7 +469,11 @@ class C14(Prop):
           '0-7 valid DNAs with rewards (ties included), operator expressions from the combinator grammar '
           'to depth 4 (mostly well-typed: reward-hungry selectors only where rewards survive, segment-wise '
           'recombinators fed two parents; ~12 % sloppy expressions for the error paths; ~15 % expressions '
-          'with oracle-only primitives, which have no model part). Non-trivial: the expression returns '
+          'with oracle-only primitives, which have no model part); a stream of constrained multi-choices with 4-7 '
+          'conflicting parents (retry / last-resort paths of _merge_multi_choice, measured per run); Proportional '
+          'with tiny / zero / equal weights and fractional n; a driver-level stream (Evolution, regularized_evolution, '
+          'hill_climb, nsga2 for 8-14 propose/feedback rounds with pass-through reproduction stages: no evaluated '
+          'DNA object may change or be proposed again). Non-trivial: the expression returns '
           'normally, the population is non-empty and at least one primitive of the expression made a PRNG '
           'draw or produced a new DNA; distinct: by (spec, population, expression, seed).')
   trusted_base = [
@@ -499,6 +503,9 @@ class C14(Prop):
     n = 420 if tier == "quick" else 6000
     for i in range(n):
       yield self.gen_case(rng)
+    # the driver level: Evolution and the shipped algorithms with pass-through reproduction stages
+    for i in range(40 if tier == 'quick' else 400):
+      yield self.gen_evolve_case(rng.fork())
     # constrained multi-choices with many conflicting parents: the retry and last-resort paths of
     # `_merge_multi_choice` (about one case in eight exhausts the 8 attempts)
     for i in range(90 if tier == 'quick' else 900):
@@ -522,6 +529,47 @@ class C14(Prop):
         if prim[1] in ('recKPoint', 'recSegmented', 'recOrder'):
           pop = pop[:2]
         yield {'spec': spec, 'pop': pop, 'expr': prim, 'seed': r.below(1 << 30)}
+
+  def gen_evolve_case(self, r):
+    spec = gen_root(r, r.weighted([(3, 0), (3, 1)]))
+
+    def stage():
+      k = r.weighted([(3, 'mut'), (2, 'swap'), (2, 'identity'), (3, 'prob0'), (2, 'never'), (2, 'prob-half'),
+                      (1, 'if-len')])
+      mut = ['prim', 'mutUniform']
+      if k == 'mut':
+        return mut
+      if k == 'swap':
+        return ['prim', 'mutSwap']
+      if k == 'identity':
+        return ['identity']
+      if k == 'prob0':
+        return ['choice', [[mut, [0, 0]]], None]                 # Uniform().with_prob(0.0)
+      if k == 'prob-half':
+        return ['choice', [[mut, [1, 1]]], None]
+      if k == 'never':
+        return ['cond', ['never'], mut, ['identity']]            # Uniform().if_true(lambda x: False)
+      return ['cond', ['lenGt', r.choice([0, 1, 3])], mut, ['identity']]
+    kind = r.weighted([(3, 'evolution'), (3, 'regularized'), (2, 'hill_climb'), (4, 'nsga2')])
+    if kind == 'evolution':
+      n0 = r.randint(2, 4)
+      sel = r.choice([['prim', 'selRandom', 2, False], ['prim', 'selTop', 1], ['prim', 'selLast', 2],
+                      ['seq', ['prim', 'selRandom', 3, False], ['prim', 'selTop', 1]]])
+      rep = ['seq', sel, stage()]
+      if r.chance(0.3):
+        rep = ['seq', ['seq', ['prim', 'selTop', 2], ['prim', 'recUniform']], stage()]
+      upd = r.choice([None, ['prim', 'selLast', n0 + 1], ['prim', 'selTop', n0]])
+      algo = ['evolution', rep, n0, upd]
+    elif kind == 'regularized':
+      p = r.randint(2, 4)
+      algo = ['regularized', stage(), p, r.randint(2, p)]
+    elif kind == 'hill_climb':
+      algo = ['hill_climb', stage(), r.randint(1, 2), r.randint(1, 2)]
+    else:
+      algo = ['nsga2', stage(), r.randint(2, 3)]
+    return {'kind': 'evolve', 'spec': spec, 'algo': algo, 'rounds': r.randint(8, 14),
+            'rewards': [r.randint(-3, 6) for _ in range(7)], 'seed': r.below(1 << 30),
+            'pop': [], 'expr': ['identity']}
 
   def gen_case(self, rng):
     r = rng.fork()
@@ -910,6 +958,8 @@ class C14(Prop):
 
   def impl(self, case):
     import pyglove as pg
+    if case.get('kind') == 'evolve':
+      return self.impl_evolve(case)
     self._verdicts = {}      # per run; the objects are kept alive by `run`
     run = self.run_once(case, hook=True)
     spec = run['spec']
@@ -1012,6 +1062,98 @@ class C14(Prop):
             'tainted': tainted, 'n_calls': len(run['calls']), 'n_draws': len(run['log']),
             'mm_paths': run['mm_paths']}
 
+  # -- the driver level: pg.evolution.Evolution and the shipped algorithms ----------------------
+  def build_algo(self, case, log):
+    import importlib
+    from pyglove.ext.evolution import base
+    import pyglove as pg
+    a = case['algo']
+    ctx = {'seed': case.get('seed', 0), 'log': log, 'n': 0}
+    sd = case.get('seed', 0) % (1 << 30)
+    if a[0] == 'evolution':
+      rep = self.build_expr(a[1], ctx)
+      upd = None if a[3] is None else self.build_expr(a[3], ctx)
+      algo = base.Evolution(rep, population_init=(pg.geno.Random(seed=sd), a[2]), population_update=upd)
+    elif a[0] == 'regularized':
+      m = importlib.import_module('pyglove.ext.evolution.regularized_evolution')
+      algo = m.regularized_evolution(self.build_expr(a[1], ctx), population_size=a[2], tournament_size=a[3], seed=sd)
+    elif a[0] == 'hill_climb':
+      m = importlib.import_module('pyglove.ext.evolution.hill_climb')
+      algo = m.hill_climb(self.build_expr(a[1], ctx), batch_size=a[2], init_population_size=a[3], seed=sd)
+    elif a[0] == 'nsga2':
+      m = importlib.import_module('pyglove.ext.evolution.nsga2')
+      algo = m.nsga2(self.build_expr(a[1], ctx), population_size=a[2], seed=sd)
+    else:
+      raise ValueError('unknown algorithm %r' % (a,))
+    return algo
+
+  def run_evolve(self, case, gseed):
+    """propose / feedback rounds. Returns (observations, failures)."""
+    import pyglove as pg
+    log = []
+    spec = self.cached_spec(case['spec'])
+    algo = self.build_algo(case, log)
+    for name in ('reproduction', 'population_update'):
+      op = algo.sym_getattr(name)
+      if op is not None:
+        self.install_recorders(op, log)
+    _pyrandom.seed(1000003 * gseed + 29)
+    algo.setup(spec)
+    multi = case['algo'][0] == 'nsga2'
+    fails = []
+    proposed = []          # every DNA object ever proposed (kept alive: identities stay unique)
+    evaluated = []         # (object, JSON with metadata right after its feedback)
+    trace = []
+    err = None
+
+    def check_evaluated(when):
+      for i, (obj, snap) in enumerate(evaluated):
+        now = pg.to_json_str(obj)
+        if now != snap:
+          fails.append({'signature': 'evolve:evaluated-dna-modified',
+                        'what': '%s: the DNA evaluated as trial %d was modified afterwards: %s -> %s' % (
+                            when, i + 1, snap, now)})
+          evaluated[i] = (obj, now)
+    try:
+      for t in range(case['rounds']):
+        dna = algo.propose()
+        check_evaluated('propose #%d' % (t + 1))
+        if any(dna is d for d in proposed):
+          fails.append({'signature': 'evolve:re-proposed-object',
+                        'what': 'propose #%d returned the very object of an earlier proposal (%r)' % (t + 1, dna)})
+        proposed.append(dna)
+        try:
+          spec.validate(dna)
+        except Exception as ex:     # pylint: disable=broad-except
+          fails.append({'signature': 'evolve:invalid-proposal', 'what': 'proposal %r: %s' % (dna, ex)})
+        r = case['rewards'][t % len(case['rewards'])]
+        reward = (r / 4.0, -((r * 7 + t) % 5) / 2.0) if multi else r / 4.0
+        algo.feedback(dna, reward)
+        check_evaluated('feedback #%d' % (t + 1))
+        evaluated.append((dna, pg.to_json_str(dna)))
+        nums, _ = self.flat(dna)
+        trace.append([nums, dna.metadata.get('proposal_id'), dna.metadata.get('generation_id')])
+    except Exception as ex:       # pylint: disable=broad-except
+      err = type(ex).__name__
+    return {'trace': trace, 'err': err, 'draws': len(log)}, fails
+
+  def impl_evolve(self, case):
+    obs, fails = self.run_evolve(case, 1)
+    obs2, _ = self.run_evolve(case, 2)
+    if obs2 != obs:
+      fails.append({'signature': 'evolve:nondeterministic',
+                    'what': 'two runs of the seeded algorithm differ: %s vs %s' % (
+                        json.dumps(obs)[:300], json.dumps(obs2)[:300])})
+    seen, checks = set(), []
+    for f in fails:
+      if f['signature'] not in seen:
+        seen.add(f['signature'])
+        checks.append(f)
+    return {'model': None, 'obs': {'outcome': 'ok' if obs['err'] is None else 'err', 'err': obs['err'],
+                                   'trace': obs['trace']},
+            'oracle': [], 'checks': checks, 'tainted': False, 'n_calls': 0, 'n_draws': obs['draws'],
+            'mm_paths': []}
+
   @staticmethod
   def bad_cuts(op, spec_json):
     try:
@@ -1054,6 +1196,8 @@ class C14(Prop):
     return self._memo[key]
 
   def model_request(self, case):
+    if case.get('kind') == 'evolve':
+      return None
     prims = expr_prims(case['expr'])
     if any(p not in MODEL_PRIMS for p in prims):
       return None
@@ -1061,6 +1205,8 @@ class C14(Prop):
 
   def model_request_with_impl(self, case, out):
     """The oracle stream fed to the model is the PRNG log recorded by the implementation run."""
+    if case.get('kind') == 'evolve':
+      return None          # the driver level has no model part: property oracle only
     prims = expr_prims(case['expr'])
     if any(p not in MODEL_PRIMS for p in prims) or has_inexact_weights(case['expr']):
       return None
@@ -1157,10 +1303,24 @@ class C14(Prop):
     return checks[0] if checks else None
 
   def nontrivial(self, case, out):
+    if case.get('kind') == 'evolve':
+      return out['obs']['outcome'] == 'ok' and len(out['obs']['trace']) > case['algo'][2 if case['algo'][0] != 'hill_climb' else 3]
     return bool(case['pop']) and out['obs']['outcome'] == 'ok' and (out['n_draws'] > 0 or any(
         o.get('id', [''])[0] == 'new' for o in out['obs'].get('out', [])))
 
   def describe(self, case, out):
+    if case.get('kind') == 'evolve':
+      a = case['algo']
+      h = ['evolve:' + a[0], 'evolve-outcome:' + (out['obs']['outcome'] if out['obs']['outcome'] == 'ok'
+                                                    else 'err:' + str(out['obs']['err'])),
+           'evolve-rounds:%d' % len(out['obs']['trace']), 'oracle-only(no model part)']
+      for pname in sorted(set(expr_prims(a[1]))):
+        h.append('evolve-stage-prim:' + pname)
+      if not set(expr_prims(a[1])) & {'mutUniform', 'mutSwap', 'recUniform', 'recSample', 'recKPoint', 'recOrder',
+                                      'recAverage', 'recWeightedAverage', 'recSegmented'} or any(
+                                          x in json.dumps(a[1]) for x in ('"never"', '[0, 0]')):
+        h.append('evolve:pass-through-stage')
+      return h
     h = []
     obs = out['obs']
     h.append('outcome:' + (obs['outcome'] if obs['outcome'] == 'ok' else 'err:' + obs['err']))
@@ -1193,6 +1353,15 @@ class C14(Prop):
     return h
 
   def shrink_candidates(self, case):
+    if case.get('kind') == 'evolve':
+      if case['rounds'] > 2:
+        yield dict(case, rounds=case['rounds'] - 1)
+        yield dict(case, rounds=max(2, case['rounds'] // 2))
+      for s in sub_exprs(case['algo'][1]):
+        a = list(case['algo'])
+        a[1] = s
+        yield dict(case, algo=a)
+      return
     e = case['expr']
     for s in sub_exprs(e):
       c = dict(case)
